@@ -36,15 +36,24 @@ func AddrOf(c CallerM) string { return c.IP + ":4242" }
 // NewHTTP registers the real server's handlers for d on a fresh mux, with a
 // WhoIs table made of callers.
 func NewHTTP(d *db.DB, callers []CallerM) (*HTTPTarget, error) {
+	return NewHTTPCtx(context.Background(), d, callers)
+}
+
+// NewHTTPCtx is NewHTTP with the context the server is constructed with.
+func NewHTTPCtx(sctx context.Context, d *db.DB, callers []CallerM) (*HTTPTarget, error) {
 	table := map[string]*apitype.WhoIsResponse{}
 	for _, c := range callers {
 		table[AddrOf(c)] = WhoIsOf(c)
 	}
 	mux := http.NewServeMux()
-	_, err := server.New(context.Background(), server.Config{
+	ht := &HTTPTarget{Mux: mux, AddrOf: AddrOf}
+	_, err := server.New(sctx, server.Config{
 		DB:  d,
 		Mux: mux,
 		WhoIs: func(ctx context.Context, addr string) (*apitype.WhoIsResponse, error) {
+			if ht.WhoIsDown.Load() {
+				return nil, errors.New("tailscaled is not reachable (injected)")
+			}
 			if w, ok := table[addr]; ok {
 				return w, nil
 			}
@@ -54,7 +63,7 @@ func NewHTTP(d *db.DB, callers []CallerM) (*HTTPTarget, error) {
 	if err != nil {
 		return nil, err
 	}
-	return &HTTPTarget{Mux: mux, AddrOf: AddrOf}, nil
+	return ht, nil
 }
 
 // Restricted builds caller i (i >= 1) holding rules.
